@@ -4,6 +4,7 @@ package main
 
 import (
 	"fmt"
+	"go/ast"
 	"go/constant"
 	"go/token"
 	"go/types"
@@ -19,6 +20,12 @@ type loopInfo struct {
 	ord    int // 1-based ordinal in source order
 	rng    *ssa.Range
 	idxAlloc *ssa.Alloc // rangeindex cell for slice ranges
+	// canonical counting loop `for v := a; v < E; v++` (recognised on the syntax tree): cntUp is the spec expression
+	// "v - 1" that `$i` denotes at the loop head (the last value for which the body completed), autoDec the variant
+	// "E - v" that is tried when the contract gives no decreases clause. Both are only *candidates*: the variant is an
+	// ordinary obligation on every back edge, so a body that changes v or E is caught by the solver.
+	cntUp   *SExpr
+	autoDec *SExpr
 }
 
 type FnExec struct {
@@ -123,6 +130,189 @@ func (fx *FnExec) analyzeCFG() {
 			}
 		}
 	}
+	fx.recogniseCountingLoops()
+}
+
+// recogniseCountingLoops maps every loop to the innermost for statement that contains its header and, when that
+// statement has the shape `for [v := a]; v < E; v++` (or <=, or the decreasing forms with --), records the candidate
+// variant and the meaning of `$i`.
+func (fx *FnExec) recogniseCountingLoops() {
+	syn := fx.fn.Syntax()
+	if syn == nil {
+		return
+	}
+	var fors []*ast.ForStmt
+	ast.Inspect(syn, func(n ast.Node) bool {
+		switch x := n.(type) {
+		case *ast.FuncLit:
+			return ast.Node(x) == syn
+		case *ast.ForStmt:
+			fors = append(fors, x)
+		}
+		return true
+	})
+	used := map[*ast.ForStmt]bool{}
+	for _, li := range fx.loopList {
+		if li.idxAlloc != nil || li.rng != nil {
+			continue
+		}
+		pos := blockPos(li.header)
+		var best *ast.ForStmt
+		for _, f := range fors {
+			if f.Pos() <= pos && pos < f.End() && (best == nil || f.Pos() > best.Pos()) {
+				best = f
+			}
+		}
+		if best == nil || used[best] || best.Cond == nil || best.Post == nil {
+			continue
+		}
+		used[best] = true
+		var v string
+		up := true
+		switch p := best.Post.(type) {
+		case *ast.IncDecStmt:
+			id, ok := p.X.(*ast.Ident)
+			if !ok {
+				continue
+			}
+			v, up = id.Name, p.Tok == token.INC
+		case *ast.AssignStmt:
+			id, ok := p.Lhs[0].(*ast.Ident)
+			lit, ok2 := p.Rhs[0].(*ast.BasicLit)
+			if len(p.Lhs) != 1 || !ok || !ok2 || lit.Value != "1" || (p.Tok != token.ADD_ASSIGN && p.Tok != token.SUB_ASSIGN) {
+				continue
+			}
+			v, up = id.Name, p.Tok == token.ADD_ASSIGN
+		default:
+			continue
+		}
+		c, ok := best.Cond.(*ast.BinaryExpr)
+		if !ok {
+			continue
+		}
+		isV := func(x ast.Expr) bool { id, ok := x.(*ast.Ident); return ok && id.Name == v }
+		var bound ast.Expr
+		strict := false
+		switch {
+		case isV(c.X) && up && (c.Op == token.LSS || c.Op == token.LEQ):
+			bound, strict = c.Y, c.Op == token.LSS
+		case isV(c.Y) && up && (c.Op == token.GTR || c.Op == token.GEQ):
+			bound, strict = c.X, c.Op == token.GTR
+		case isV(c.X) && !up && (c.Op == token.GTR || c.Op == token.GEQ):
+			bound, strict = c.Y, c.Op == token.GTR
+		case isV(c.Y) && !up && (c.Op == token.LSS || c.Op == token.LEQ):
+			bound, strict = c.X, c.Op == token.LSS
+		default:
+			continue
+		}
+		b := types.ExprString(bound)
+		text := "(" + b + ") - " + v
+		if !up {
+			text = v + " - (" + b + ")"
+		}
+		if !strict {
+			text += " + 1"
+		}
+		if x, err := parseSpecExpr(text); err == nil {
+			li.autoDec = x
+		}
+		if up {
+			if x, err := parseSpecExpr(v + " - 1"); err == nil {
+				li.cntUp = x
+			}
+		}
+	}
+}
+
+// autoVariantOK reports whether the candidate variant of a counting loop can be evaluated in both states (the bound may
+// be an expression the contract language cannot read, e.g. a call); a failed trial leaves no trace.
+func (fx *FnExec) autoVariantOK(li *loopInfo, head, bs *State) (ok bool) {
+	e := fx.e
+	n := len(e.specErrors)
+	defer func() {
+		if r := recover(); r != nil {
+			ok = false
+		}
+		if len(e.specErrors) > n {
+			e.specErrors = e.specErrors[:n]
+			ok = false
+		}
+	}()
+	fx.evalSpecInt(li.autoDec, head, fx.oldFor(head), li)
+	fx.evalSpecInt(li.autoDec, bs, fx.oldFor(bs), li)
+	return true
+}
+
+// ghostInitAt: ghost state about an object begins at zero when the object is allocated (ghost maps keyed by *T are
+// ghost fields of T): for every ghost `map[*T]V` the entry of the new object is V's zero value.
+func (fx *FnExec) ghostInitAt(st *State, ref string, et types.Type) {
+	e := fx.e
+	n, ok := et.(*types.Named)
+	if !ok || n.Obj().Pkg() == nil {
+		return
+	}
+	if _, isStruct := n.Underlying().(*types.Struct); !isStruct {
+		return
+	}
+	var names []string
+	for name := range e.w.spec.Ghosts {
+		names = append(names, name)
+	}
+	sort.Strings(names)
+	for _, name := range names {
+		g := e.w.spec.Ghosts[name]
+		if g.Type == nil || g.Type.Kind != "map" || g.Type.Key == nil || g.Type.Key.Kind != "ptr" {
+			continue
+		}
+		kt := e.resolveType(g.Type.Key, g.Pkg)
+		vt := e.resolveType(g.Type.Elem, g.Pkg)
+		if kt == nil || vt == nil {
+			continue
+		}
+		pt, ok := kt.Underlying().(*types.Pointer)
+		if !ok || !types.Identical(pt.Elem(), et) {
+			continue
+		}
+		env := &SpecEnv{fx: fx, e: e, st: st, vars: map[string]*SV{}, pkg: g.Pkg}
+		sv := env.ghostValue(g)
+		if sv == nil {
+			continue
+		}
+		z := e.fl.zero(e.c, vt)
+		for i, l := range sv.V.L {
+			if i < len(z) {
+				e.assume(st, eq(sel(l, ref), z[i]))
+			}
+		}
+	}
+}
+
+// rangedValue returns the slice a range-over-slice loop iterates: go/ssa evaluates it once before the loop, takes its
+// length, and the loop head compares the incremented index with that length.
+func rangedValue(li *loopInfo) ssa.Value {
+	if len(li.header.Instrs) == 0 {
+		return nil
+	}
+	br, ok := li.header.Instrs[len(li.header.Instrs)-1].(*ssa.If)
+	if !ok {
+		return nil
+	}
+	cmp, ok := br.Cond.(*ssa.BinOp)
+	if !ok || cmp.Op != token.LSS {
+		return nil
+	}
+	call, ok := cmp.Y.(*ssa.Call)
+	if !ok {
+		return nil
+	}
+	if b, ok := call.Call.Value.(*ssa.Builtin); !ok || b.Name() != "len" || len(call.Call.Args) != 1 {
+		return nil
+	}
+	x := call.Call.Args[0]
+	if _, isSlice := x.Type().Underlying().(*types.Slice); !isSlice {
+		return nil
+	}
+	return x
 }
 
 func blockPos(b *ssa.BasicBlock) token.Pos {
@@ -452,6 +642,11 @@ func (fx *FnExec) execLoop(li *loopInfo) {
 				ok = fmt.Sprintf("(forall ((k!q %s)) (=> (select %s k!q) (select %s k!q)))", ks, d1, d0)
 			}
 			e.addObl("term", fmt.Sprintf("maprange:loop%d", li.ord), e.autoTags("term", fx.fn), bs, ok, li.header.Instrs[0].Pos())
+		case li.autoDec != nil && fx.autoVariantOK(li, head, bs):
+			// counting loop without a decreases clause: the variant read off the loop condition is tried
+			v0 := fx.evalSpecInt(li.autoDec, head, fx.oldFor(head), li)
+			v1 := fx.evalSpecInt(li.autoDec, bs, fx.oldFor(bs), li)
+			e.addObl("term", fmt.Sprintf("decreases:loop%d", li.ord), e.autoTags("term", fx.fn), bs, and("(< "+v1+" "+v0+")", "(>= "+v0+" 0)"), li.header.Instrs[0].Pos())
 		case li.idxAlloc != nil:
 			// slice range: index strictly increases towards a fixed length: structural
 			if !termDone {
@@ -667,6 +862,7 @@ func (fx *FnExec) execInstr(st *State, in ssa.Instruction) {
 			return
 		}
 		ref := e.newRef(st, "new_"+shortTypeName(et))
+		fx.ghostInitAt(st, ref, et)
 		ls := e.fl.leaves(et)
 		z := e.fl.zero(e.c, et)
 		_, isStruct := et.Underlying().(*types.Struct)
